@@ -42,6 +42,15 @@ check("C15", "DESIGN.md 5/C15",
       "Trusted: character classes computed with the regexes tokenize() documents; ast.dump as oracle of 'same python up to formatting'. "
       "Known finding D15 (names ending in an odd run of backslashes) is reported as KNOWN-FINDING.")
 
+check("C16", "DESIGN.md 5/C16",
+      "TLA+ model Constraints.tla (shared shunting-yard machine + affine-map algebra in exact rationals) checked in TLC against an "
+      "independent arithmetic reference on n+1 affinely independent points; exhaustive replay; trace validation (Trace_Constraints)",
+      "TLC proves for every token string in the bound that the compiled rows equal the arithmetic meaning of the written expression on "
+      "the points 0, e_1..e_n (which determines an affine map) and that non-linear specifications are rejected; the real "
+      "LinearConstraints.from_spec (string, list, mapping forms, and ModelSpec.get_linear_constraints) is compared exactly on every case, "
+      "and random deep expressions recorded from the real code are validated by TLC.",
+      "Trusted: conversion of the float (A, b) to fractions with denominator <= 1e6; small literals keep Rat.tla inside 32-bit integers.")
+
 NOT_YET = "check not yet built in this round (planned; see DESIGN.md section 5)"
 
 
